@@ -31,6 +31,7 @@ class Profile:
         self.end = 'verify'                     # how the history ends: verify | drop | report | mixed
         self.allow_mode_conflict = False
         self.empty_stub_chance = (0, 1)
+        self.noresp_chance = (0, 1)             # a stub pattern left without any response (`each.call(matching!(..));`): it still claims its calls
         self.user_panic_answers = False
         self.lifecycle = False
         self.park_weight = 0                    # answers that lend out a clone of the mock via make_ref                  # interleave clone/drop/verify/noverify events
@@ -109,6 +110,8 @@ def gen_clauses(rng, prof):
                 pats = []
                 for _ in range(k):
                     pats.append(gen_pat(rng, prof, 'stub', serial, False))
+                    if rng.chance(*prof.noresp_chance):
+                        pats[-1].chain = []
                     serial += 1
                 items.append(stub(m, pats))
     # random nesting
